@@ -196,4 +196,466 @@ Section Proof.
       rewrite G; [exact Pr | auto | auto].
     - subst n n'. rewrite !(vitems_base "Compound" a _ "block_items") by (cbn [In BASE_ITER]; auto). exact V.
   Qed.
+
+  (* ---------- single statement slots ---------- *)
+  Lemma ins_refl n : ins okU n n.
+  Proof.
+    induction n as [c a ks IH] using node_ind'. constructor. clear IH.
+    induction ks as [|[s l] ks IHk]; constructor; assumption.
+  Qed.
+
+  Lemma ins_cls n n' : ins okU n n' -> ncls n' = ncls n.
+  Proof. intros H. inversion H; reflexivity. Qed.
+
+  Lemma slot_rel c s l l' :
+    (l' = l \/ (struct_slot c s = true /\ ins_list okU (ins okU) (String.eqb c "Compound") l l')) ->
+    String.eqb c "Compound" = false -> Forall2 (ins okU) l l'.
+  Proof.
+    intros [->|[_ H]] E.
+    - clear. induction l; constructor; [apply ins_refl | assumption].
+    - rewrite E in H. apply ins_list_false. exact H.
+  Qed.
+
+  Lemma slot_res_untouched A s l :
+    has_act (RmAttr [] s) A = false -> (forall j, has_act (RmChild [] s j) A = false) ->
+    (forall j, descend s j A = []) -> slot_res A s l = l.
+  Proof. intros H0 H1 H2. unfold slot_res. rewrite H0. apply ac_go_untouched; assumption. Qed.
+
+  Lemma slot_res_single A s x :
+    has_act (RmAttr [] s) A = false -> has_act (RmChild [] s 0) A = false ->
+    slot_res A s [x] = [apply_clears (descend s 0 A) x].
+  Proof. intros H0 H1. unfold slot_res. rewrite H0. simpl. rewrite H1. reflexivity. Qed.
+
+  Lemma routed_untouched A s s' l : routed (s, 0) A -> s' <> s -> slot_res A s' l = l.
+  Proof.
+    intros Rt N. apply slot_res_untouched.
+    - apply (routed_no_here (s, 0)); auto.
+    - intros j. apply (routed_no_here (s, 0)); auto.
+    - intros j. apply (routed_other (s, 0)); [assumption|]. intro E. inversion E. congruence.
+  Qed.
+
+  Lemma map_slots_untouched A (pre : list (string * list node)) :
+    (forall s l, In (s, l) pre -> slot_res A s l = l) ->
+    map (fun sk => (fst sk, slot_res A (fst sk) (snd sk))) pre = pre.
+  Proof.
+    induction pre as [|[s l] pre IH]; intros H; simpl; [reflexivity|]. rewrite (H s l (or_introl eq_refl)). f_equal.
+    apply IH. intros s' l' Hin. apply H. right. exact Hin.
+  Qed.
+
+  (* the last slot holds one child x' that the parent passes through *)
+  Lemma last_slot_pass c a pre s x x' :
+    ~ In s (map fst pre) -> clean x' = x ->
+    apply_clears (acts (map (pass [(s, 0)]) (cov x'))) (Node c a (pre ++ [(s, [x'])])) = Node c a (pre ++ [(s, [x])]).
+  Proof.
+    intros Nin Hc. rewrite apply_clears_eq. f_equal. rewrite map_app. f_equal.
+    - apply map_slots_untouched. intros s' l Hin. apply (routed_untouched _ s s' l (routed_pass (s, 0) [] (cov x'))).
+      intro E. subst s'. apply Nin. apply in_map_iff. exists (s, l). auto.
+    - simpl. f_equal. f_equal. rewrite slot_res_single.
+      + rewrite (descend_pass' s 0 [] (cov x')), map_pass_nil. fold (clean x'). rewrite Hc. reflexivity.
+      + apply (routed_no_here (s, 0)); [apply routed_pass | reflexivity].
+      + apply (routed_no_here (s, 0)); [apply routed_pass | reflexivity].
+  Qed.
+
+  (* ... or hands its own rm_attr to *)
+  Lemma last_slot_wc c a pre s x x' :
+    ~ In s (map fst pre) -> clean x' = x -> has_inh (cov x') = false ->
+    apply_clears (wc_part s (cov x')) (Node c a (pre ++ [(s, [x'])])) = Node c a (pre ++ [(s, [x])]).
+  Proof.
+    intros Nin Hc Hi. rewrite apply_clears_eq. f_equal. rewrite map_app. f_equal.
+    - apply map_slots_untouched. intros s' l Hin.
+      assert (N : s' <> s). { intro E. subst s'. apply Nin. apply in_map_iff. exists (s, l). auto. }
+      destruct (untouched_by_wc s s' (cov x') N) as [u1 [u2 u3]]. apply slot_res_untouched; assumption.
+    - simpl. f_equal. f_equal. rewrite slot_res_single.
+      + rewrite wc_descend, step_eqb_refl. fold (clean x'). rewrite Hc. reflexivity.
+      + rewrite wc_rmattr, Hi. reflexivity.
+      + apply wc_rmchild.
+  Qed.
+
+  Lemma assoc_app_notin {A} s (pre post : list (string * A)) :
+    ~ In s (map fst pre) -> assoc s (pre ++ post) = assoc s post.
+  Proof.
+    induction pre as [|[s' l] pre IH]; intros N; simpl; [reflexivity|].
+    destruct (String.eqb_spec s s') as [->|Ne]; [exfalso; apply N; left; reflexivity|]. apply IH. intro H. apply N. right. exact H.
+  Qed.
+
+  Lemma kid1_last c a pre s x : ~ In s (map fst pre) -> kid1 (Node c a (pre ++ [(s, [x])])) s = Some x.
+  Proof. intros N. unfold kid1, kidl, slot. simpl nkids. rewrite assoc_app_notin by assumption. simpl. rewrite String.eqb_refl. reflexivity. Qed.
+
+  Lemma assoc_app_in {A} s (pre post : list (string * A)) :
+    In s (map fst pre) -> assoc s (pre ++ post) = assoc s pre.
+  Proof.
+    induction pre as [|[s' l] pre IH]; intros H; simpl in *; [contradiction|].
+    destruct (String.eqb_spec s s') as [->|Ne]; [reflexivity|]. apply IH. destruct H; [congruence | assumption].
+  Qed.
+
+  Lemma kidl_pre c a pre post post' s : In s (map fst pre) ->
+    kidl (Node c a (pre ++ post)) s = kidl (Node c a (pre ++ post')) s.
+  Proof. intros H. unfold kidl, slot. simpl nkids. rewrite !assoc_app_in by assumption. reflexivity. Qed.
+
+  (* loop bodies: While, DoWhile, For *)
+  Lemma Q_body c a pre l :
+    (c = "While" \/ c = "DoWhile" \/ c = "For") -> ~ In "stmt" (map fst pre) ->
+    cov (Node c a (pre ++ [("stmt", l)])) = body_part (Node c a (pre ++ [("stmt", l)])) ->
+    Forall Q l ->
+    forall l', wf_pyc (Node c a (pre ++ [("stmt", l')])) = true -> length l' <= 1 ->
+    (forall x x', l = [x] -> l' = [x'] -> R x x' ->
+                  cov (Node c a (pre ++ [("stmt", l')])) = body_part (Node c a (pre ++ [("stmt", l')]))) ->
+    Forall2 (ins okU) l l' ->
+    cov (Node c a (pre ++ [("stmt", l)])) = [] -> host_ok (Node c a (pre ++ [("stmt", l)])) ->
+    exists x x', l = [x] /\ l' = [x'] /\ R x x' /\
+      has_err (cov (Node c a (pre ++ [("stmt", l')]))) = false /\ has_inh (cov (Node c a (pre ++ [("stmt", l')]))) = false /\
+      clean (Node c a (pre ++ [("stmt", l')])) = Node c a (pre ++ [("stmt", l)]).
+  Proof.
+    intros Hc Nin Hcov HQ l' Hw Hlen Hcov1 F Hc0 Hh.
+    destruct (single_pair l l' F Hlen) as [[-> ->]|[x [x' [-> [-> Hx]]]]].
+    { exfalso. rewrite Hcov in Hc0. unfold body_part in Hc0. unfold kid1, kidl, slot in Hc0. simpl nkids in Hc0.
+      rewrite assoc_app_notin in Hc0 by assumption. simpl in Hc0. discriminate. }
+    set (n := Node c a (pre ++ [("stmt", [x])])) in *. set (n' := Node c a (pre ++ [("stmt", [x'])])) in *.
+    assert (K : kid1 n "stmt" = Some x) by (apply kid1_last; assumption).
+    assert (K' : kid1 n' "stmt" = Some x') by (apply kid1_last; assumption).
+    assert (Cx : cov x = []).
+    { rewrite Hcov in Hc0. unfold body_part in Hc0. rewrite K in Hc0.
+      destruct (is_cls "Compound" x) eqn:Cc.
+      - apply map_eq_nil' in Hc0. rewrite (compound_cov x Cc). exact Hc0.
+      - apply map_eq_nil' in Hc0. exact Hc0. }
+    inversion HQ as [|? ? Qx _]; subst.
+    assert (Wx : wf_pyc x' = true) by (apply (wf_kid1 n' "stmt" x' Hw K')).
+    assert (Hhx : host_ok x).
+    { apply (host_ok_kidl n "stmt" x Hh). unfold kid1 in K. destruct (kidl n "stmt"); [discriminate|]. inversion K. left. reflexivity. }
+    destruct (Qx x' Hx Wx Cx Hhx) as [Re [Ri [Rc Rv]]].
+    exists x, x'. split; [reflexivity|]. split; [reflexivity|]. split; [exact (conj Re (conj Ri (conj Rc Rv)))|].
+    assert (E' : cov n' = body_part n') by (unfold n'; apply (Hcov1 x x' eq_refl eq_refl (conj Re (conj Ri (conj Rc Rv))))).
+    assert (Cls : is_cls "Compound" x' = is_cls "Compound" x) by (unfold is_cls; rewrite (ins_cls x x' Hx); reflexivity).
+    unfold body_part in E'. rewrite K', Cls in E'.
+    destruct (is_cls "Compound" x) eqn:Cc.
+    - assert (Cc' : is_cls "Compound" x' = true) by (rewrite Cls; reflexivity).
+      rewrite <- (compound_cov x' Cc') in E'.
+      rewrite E', has_err_pass, has_inh_pass. split; [exact Re|]. split; [exact Ri|].
+      unfold clean. rewrite E'. apply last_slot_pass; assumption.
+    - rewrite E', has_err_with_clear, has_inh_with_clear. split; [exact Re|]. split; [reflexivity|].
+      unfold clean. rewrite E'. apply (last_slot_wc c a pre "stmt" x x'); assumption.
+  Qed.
+
+  Lemma lg_add init conds nxt b b' x :
+    loop_guard_of init conds nxt b = LcYes x -> vadd b b' -> host x -> loop_guard_of init conds nxt b' = LcYes x.
+  Proof.
+    unfold loop_guard_of. destruct (init_vars init) as [[it sr]|]; [|discriminate].
+    intros H [V1 V2] Hx.
+    destruct (vraises conds || vraises nxt || vraises b) eqn:Rr; [discriminate|].
+    apply orb_false_iff in Rr. destruct Rr as [Rr Rb]. rewrite Rr, (V1 Rb). simpl.
+    destruct (dedup (filter (fun v => negb (in_s v (it ++ vnames_of nxt))) (vnames_of conds ++ sr)) []) as [|y [|z l]]; try discriminate.
+    destruct (in_s y (vnames_of b)) eqn:Iy; [discriminate|]. inversion H; subst y.
+    assert (Iy' : in_s x (vnames_of b') = false).
+    { apply in_s_false. apply in_s_false in Iy. intro Qn. destruct (V2 x Qn) as [Hin|Hn]; [apply Iy; exact Hin | apply Hn; exact Hx]. }
+    rewrite Iy'. reflexivity.
+  Qed.
+
+  Lemma in_subnodes_self n : In n (subnodes n).
+  Proof. destruct n. simpl. left. reflexivity. Qed.
+
+  Ltac slot_same Hl cname sname :=
+    let E := fresh in
+    assert (E : struct_slot cname sname = false) by reflexivity;
+    apply (fun HHx__ => kids_struct_or_same cname sname _ _ HHx__ E) in Hl; subst.
+
+  Lemma Q_While a ks : Forall (fun sk => Forall Q (snd sk)) ks -> Q (Node "While" a ks).
+  Proof.
+    intros IH n' Hins Hw Hc Hh. inversion Hins as [c a0 ks0 ks' Hk]; subst. clear Hins.
+    pose proof (wf_slots "While" a ks' _ _ eq_refl Hw) as M. simpl in M.
+    destruct ks' as [|[s1 lc'] [|[s2 ls'] [|? ?]]]; simpl in M; try discriminate. inversion M; subst s1 s2. clear M.
+    pose proof (ins_kids_fst _ _ _ _ Hk) as Mf.
+    destruct ks as [|[s1 lc] [|[s2 ls] [|? ?]]]; simpl in Mf; try discriminate. inversion Mf; subst s1 s2. clear Mf.
+    destruct (ins_kids_cons_inv _ _ _ _ _ Hk) as [l2 [r2 [Eq [Hk2 Hl1]]]]. inversion Eq; subst l2 r2. clear Eq.
+    destruct (ins_kids_cons_inv _ _ _ _ _ Hk2) as [l3 [r3 [Eq [_ Hl2]]]]. inversion Eq; subst l3 r3. clear Eq.
+    slot_same Hl1 "While" "cond".
+    pose proof (slot_rel "While" "stmt" ls ls' Hl2 eq_refl) as F.
+    pose proof (wf_single "While" a _ _ _ "stmt" ls' eq_refl Hw (or_intror (or_introl eq_refl)) eq_refl) as Hlen.
+    assert (HQ : Forall Q ls) by (apply (Forall_kidl Q "While" a [("cond", lc); ("stmt", ls)] "stmt" IH)).
+    destruct (Q_body "While" a [("cond", lc)] ls (or_introl eq_refl)) with (l' := ls') as [x [x' [-> [-> [Rx [He [Hi Hcl]]]]]]]; auto.
+    - simpl. intros [Hq|[]]. discriminate.
+    - apply cov_While.
+    - intros. apply cov_While.
+    - simpl app in *. unfold R. split; [exact He|]. split; [exact Hi|]. split; [exact Hcl|].
+      rewrite !vitems_While. apply vadd_app; [apply vadd_refl | apply Rx].
+  Qed.
+
+  Lemma Q_DoWhile a ks : Forall (fun sk => Forall Q (snd sk)) ks -> Q (Node "DoWhile" a ks).
+  Proof.
+    intros IH n' Hins Hw Hc Hh. inversion Hins as [c a0 ks0 ks' Hk]; subst. clear Hins.
+    pose proof (wf_slots "DoWhile" a ks' _ _ eq_refl Hw) as M. simpl in M.
+    destruct ks' as [|[s1 lc'] [|[s2 ls'] [|? ?]]]; simpl in M; try discriminate. inversion M; subst s1 s2. clear M.
+    pose proof (ins_kids_fst _ _ _ _ Hk) as Mf.
+    destruct ks as [|[s1 lc] [|[s2 ls] [|? ?]]]; simpl in Mf; try discriminate. inversion Mf; subst s1 s2. clear Mf.
+    destruct (ins_kids_cons_inv _ _ _ _ _ Hk) as [l2 [r2 [Eq [Hk2 Hl1]]]]. inversion Eq; subst l2 r2. clear Eq.
+    destruct (ins_kids_cons_inv _ _ _ _ _ Hk2) as [l3 [r3 [Eq [_ Hl2]]]]. inversion Eq; subst l3 r3. clear Eq.
+    slot_same Hl1 "DoWhile" "cond".
+    pose proof (slot_rel "DoWhile" "stmt" ls ls' Hl2 eq_refl) as F.
+    pose proof (wf_single "DoWhile" a _ _ _ "stmt" ls' eq_refl Hw (or_intror (or_introl eq_refl)) eq_refl) as Hlen.
+    assert (HQ : Forall Q ls) by (apply (Forall_kidl Q "DoWhile" a [("cond", lc); ("stmt", ls)] "stmt" IH)).
+    destruct (Q_body "DoWhile" a [("cond", lc)] ls (or_intror (or_introl eq_refl))) with (l' := ls') as [x [x' [-> [-> [Rx [He [Hi Hcl]]]]]]]; auto.
+    - simpl. intros [Hq|[]]. discriminate.
+    - apply cov_DoWhile.
+    - intros. apply cov_DoWhile.
+    - simpl app in *. unfold R. split; [exact He|]. split; [exact Hi|]. split; [exact Hcl|].
+      rewrite !vitems_DoWhile. apply vadd_app; [apply vadd_refl | apply Rx].
+  Qed.
+
+  Lemma Q_For a ks : Forall (fun sk => Forall Q (snd sk)) ks -> Q (Node "For" a ks).
+  Proof.
+    intros IH n' Hins Hw Hc Hh. inversion Hins as [c a0 ks0 ks' Hk]; subst. clear Hins.
+    pose proof (wf_slots "For" a ks' _ _ eq_refl Hw) as M. simpl in M.
+    destruct ks' as [|[s1 li'] [|[s2 lc'] [|[s3 ln'] [|[s4 ls'] [|? ?]]]]]; simpl in M; try discriminate.
+    inversion M; subst s1 s2 s3 s4. clear M.
+    pose proof (ins_kids_fst _ _ _ _ Hk) as Mf.
+    destruct ks as [|[s1 li] [|[s2 lc] [|[s3 ln] [|[s4 ls] [|? ?]]]]]; simpl in Mf; try discriminate.
+    inversion Mf; subst s1 s2 s3 s4. clear Mf.
+    destruct (ins_kids_cons_inv _ _ _ _ _ Hk) as [l2 [r2 [Eq [Hk2 Hl1]]]]. inversion Eq; subst l2 r2. clear Eq.
+    destruct (ins_kids_cons_inv _ _ _ _ _ Hk2) as [l3 [r3 [Eq [Hk3 Hl2]]]]. inversion Eq; subst l3 r3. clear Eq.
+    destruct (ins_kids_cons_inv _ _ _ _ _ Hk3) as [l4 [r4 [Eq [Hk4 Hl3]]]]. inversion Eq; subst l4 r4. clear Eq.
+    destruct (ins_kids_cons_inv _ _ _ _ _ Hk4) as [l5 [r5 [Eq [_ Hl4]]]]. inversion Eq; subst l5 r5. clear Eq.
+    slot_same Hl1 "For" "init". slot_same Hl2 "For" "cond". slot_same Hl3 "For" "next".
+    pose proof (slot_rel "For" "stmt" ls ls' Hl4 eq_refl) as F.
+    pose proof (wf_single "For" a _ _ _ "stmt" ls' eq_refl Hw (or_intror (or_intror (or_intror (or_introl eq_refl)))) eq_refl) as Hlen.
+    assert (HQ : Forall Q ls) by (apply (Forall_kidl Q "For" a [("init", li); ("cond", lc); ("next", ln); ("stmt", ls)] "stmt" IH)).
+    set (n := Node "For" a [("init", li); ("cond", lc); ("next", ln); ("stmt", ls)]) in *.
+    (* the host loop is counted *)
+    pose proof (cov_For a [("init", li); ("cond", lc); ("next", ln); ("stmt", ls)]) as E. fold n in E.
+    destruct (loop_compat n) as [| |x0] eqn:L; try (rewrite E in Hc; discriminate).
+    assert (Hx0 : host x0) by (apply (Hh n x0 (in_subnodes_self n) L)).
+    destruct (Q_body "For" a [("init", li); ("cond", lc); ("next", ln)] ls (or_intror (or_intror eq_refl))) with (l' := ls')
+      as [x [x' [-> [-> [Rx [He [Hi Hcl]]]]]]]; auto.
+    - simpl. intros [Hq|[Hq|[Hq|[]]]]; discriminate.
+    - intros x x' -> -> Rx. simpl app. rewrite cov_For.
+      replace (loop_compat (Node "For" a [("init", li); ("cond", lc); ("next", ln); ("stmt", [x'])])) with (LcYes x0); [reflexivity|].
+      symmetry. unfold loop_compat in *. cbn in L |- *. apply (lg_add _ _ _ _ _ x0 L); [apply Rx | exact Hx0].
+    - simpl app in *. unfold R. split; [exact He|]. split; [exact Hi|]. split; [exact Hcl|].
+      assert (L' : loop_compat (Node "For" a [("init", li); ("cond", lc); ("next", ln); ("stmt", [x'])]) = LcYes x0).
+      { unfold loop_compat in *. cbn in L |- *. apply (lg_add _ _ _ _ _ x0 L); [apply Rx | exact Hx0]. }
+      subst n. rewrite !vitems_For, L, L'. apply vadd_app; [apply vadd_refl | apply Rx].
+  Qed.
+
+  Lemma Q_FuncDef a ks : Forall (fun sk => Forall Q (snd sk)) ks -> Q (Node "FuncDef" a ks).
+  Proof.
+    intros IH n' Hins Hw Hc Hh. inversion Hins as [c a0 ks0 ks' Hk]; subst. clear Hins.
+    pose proof (wf_slots "FuncDef" a ks' _ _ eq_refl Hw) as M. simpl in M.
+    destruct ks' as [|[s1 ld'] [|[s2 lp'] [|[s3 lb'] [|? ?]]]]; simpl in M; try discriminate.
+    inversion M; subst s1 s2 s3. clear M.
+    pose proof (ins_kids_fst _ _ _ _ Hk) as Mf.
+    destruct ks as [|[s1 ld] [|[s2 lp] [|[s3 lb] [|? ?]]]]; simpl in Mf; try discriminate.
+    inversion Mf; subst s1 s2 s3. clear Mf.
+    destruct (ins_kids_cons_inv _ _ _ _ _ Hk) as [l2 [r2 [Eq [Hk2 Hl1]]]]. inversion Eq; subst l2 r2. clear Eq.
+    destruct (ins_kids_cons_inv _ _ _ _ _ Hk2) as [l3 [r3 [Eq [Hk3 Hl2]]]]. inversion Eq; subst l3 r3. clear Eq.
+    destruct (ins_kids_cons_inv _ _ _ _ _ Hk3) as [l4 [r4 [Eq [_ Hl3]]]]. inversion Eq; subst l4 r4. clear Eq.
+    slot_same Hl1 "FuncDef" "decl". slot_same Hl2 "FuncDef" "param_decls".
+    pose proof (slot_rel "FuncDef" "body" lb lb' Hl3 eq_refl) as F.
+    pose proof (wf_single "FuncDef" a _ _ _ "body" lb' eq_refl Hw (or_intror (or_intror (or_introl eq_refl))) eq_refl) as Hlen.
+    set (n := Node "FuncDef" a [("decl", ld); ("param_decls", lp); ("body", lb)]) in *.
+    pose proof (cov_FuncDef a [("decl", ld); ("param_decls", lp); ("body", lb)]) as E. fold n in E.
+    rewrite E in Hc. apply app_eq_nil in Hc. destruct Hc as [Ha Hb].
+    destruct (single_pair lb lb' F Hlen) as [[-> ->]|[b [b' [-> [-> Hx]]]]].
+    { apply R_same. fold n. rewrite E, Ha, Hb. reflexivity. }
+    set (n' := Node "FuncDef" a [("decl", ld); ("param_decls", lp); ("body", [b'])]) in *.
+    assert (Ha' : args_part n' = []) by exact Ha.
+    assert (Cb : cov b = []). { unfold pass_kid in Hb. cbn in Hb. apply map_eq_nil' in Hb. exact Hb. }
+    assert (Qb : Q b).
+    { pose proof (Forall_kidl Q "FuncDef" a [("decl", ld); ("param_decls", lp); ("body", [b])] "body" IH) as Fq. inversion Fq. assumption. }
+    assert (Wb : wf_pyc b' = true) by (apply (wf_kid1 n' "body" b' Hw eq_refl)).
+    assert (Hhb : host_ok b) by (apply (host_ok_kidl n "body" b Hh); left; reflexivity).
+    destruct (Qb b' Hx Wb Cb Hhb) as [Re [Ri [Rc Rv]]].
+    assert (E' : cov n' = map (pass [("body", 0)]) (cov b')).
+    { unfold n'. rewrite cov_FuncDef. fold n'. rewrite Ha'. reflexivity. }
+    unfold R. rewrite E', has_err_pass, has_inh_pass. split; [exact Re|]. split; [exact Ri|]. split.
+    - unfold clean. rewrite E'. apply (last_slot_pass "FuncDef" a [("decl", ld); ("param_decls", lp)] "body" b b'); [|exact Rc].
+      simpl. intros [Hq|[Hq|[]]]; discriminate.
+    - unfold n, n'. rewrite !vitems_FuncDef. apply vadd_app; [apply vadd_refl | exact Rv].
+  Qed.
+
+  (* ---------- If: two branches, each with its own rm_attr ---------- *)
+  Definition oL (l : list node) : cres := match l with [x] => cov x | _ => [] end.
+
+  Lemma wc2_rmattr s1 s2 L1 L2 s :
+    has_inh L1 = false -> has_inh L2 = false -> has_act (RmAttr [] s) (wc_part s1 L1 ++ wc_part s2 L2) = false.
+  Proof. intros H1 H2. rewrite has_act_app, !wc_rmattr, H1, H2. reflexivity. Qed.
+
+  Lemma wc2_slot1 s1 s2 L1 L2 x' :
+    s1 <> s2 -> has_inh L1 = false -> has_inh L2 = false ->
+    slot_res (wc_part s1 L1 ++ wc_part s2 L2) s1 [x'] = [apply_clears (acts L1) x'].
+  Proof.
+    intros N H1 H2. rewrite slot_res_single.
+    - rewrite descend_app, !wc_descend, step_eqb_refl, (step_neq s2 s1 0 N), app_nil_r. reflexivity.
+    - apply wc2_rmattr; assumption.
+    - rewrite has_act_app, !wc_rmchild. reflexivity.
+  Qed.
+
+  Lemma wc2_slot2 s1 s2 L1 L2 x' :
+    s1 <> s2 -> has_inh L1 = false -> has_inh L2 = false ->
+    slot_res (wc_part s1 L1 ++ wc_part s2 L2) s2 [x'] = [apply_clears (acts L2) x'].
+  Proof.
+    intros N H1 H2. rewrite slot_res_single.
+    - rewrite descend_app, !wc_descend, step_eqb_refl, (step_neq s1 s2 0 (not_eq_sym N)). reflexivity.
+    - apply wc2_rmattr; assumption.
+    - rewrite has_act_app, !wc_rmchild. reflexivity.
+  Qed.
+
+  Lemma wc2_nil s1 s2 L1 L2 s :
+    has_inh L1 = false -> has_inh L2 = false -> slot_res (wc_part s1 L1 ++ wc_part s2 L2) s [] = [].
+  Proof. intros H1 H2. unfold slot_res. rewrite wc2_rmattr by assumption. reflexivity. Qed.
+
+  Lemma wc2_other s1 s2 L1 L2 s l :
+    s <> s1 -> s <> s2 -> has_inh L1 = false -> has_inh L2 = false -> slot_res (wc_part s1 L1 ++ wc_part s2 L2) s l = l.
+  Proof.
+    intros N1 N2 H1 H2. apply slot_res_untouched.
+    - apply wc2_rmattr; assumption.
+    - intros j. rewrite has_act_app, !wc_rmchild. reflexivity.
+    - intros j. rewrite descend_app, !wc_descend, (step_neq s1 s j N1), (step_neq s2 s j N2). reflexivity.
+  Qed.
+
+  (* a branch slot: empty on both sides, or one related pair *)
+  Lemma branch_facts (l l' : list node) :
+    Forall Q l -> Forall host_ok l -> Forall (fun x => wf_pyc x = true) l' ->
+    Forall2 (ins okU) l l' -> length l' <= 1 -> oL l = [] ->
+    has_err (oL l') = false /\ has_inh (oL l') = false /\
+    match l' with [x'] => [apply_clears (acts (oL l')) x'] | _ => l' end = l /\
+    vadd (flat_map vitems l) (flat_map vitems l').
+  Proof.
+    intros HQ HH HW F Hlen Hc.
+    destruct (single_pair l l' F Hlen) as [[-> ->]|[x [x' [-> [-> Hx]]]]].
+    - simpl. repeat split; auto.
+    - inversion HQ as [|? ? Qx _]; subst. inversion HH as [|? ? Hhx _]; subst. inversion HW as [|? ? Wx _]; subst.
+      simpl in Hc. destruct (Qx x' Hx Wx Hc Hhx) as [Re [Ri [Rc Rv]]].
+      simpl oL. split; [exact Re|]. split; [exact Ri|]. split; [fold (clean x'); rewrite Rc; reflexivity|].
+      simpl. rewrite !app_nil_r. exact Rv.
+  Qed.
+
+  Lemma if_part_explicit a lc lt lf s :
+    (s = "iftrue" \/ s = "iffalse") -> length lt <= 1 -> length lf <= 1 ->
+    if_part (Node "If" a [("cond", lc); ("iftrue", lt); ("iffalse", lf)]) s =
+    map (with_clear (RmAttr [] s) [(s, 0)]) (oL (if String.eqb s "iftrue" then lt else lf)).
+  Proof.
+    intros [ -> | -> ] H1 H2; unfold if_part; cbn.
+    - destruct lt as [|x [|y r]]; simpl in *; try reflexivity. lia.
+    - destruct lf as [|x [|y r]]; simpl in *; try reflexivity. lia.
+  Qed.
+
+  Lemma ovitems_explicit (l : list node) : length l <= 1 -> ovitems (match l with x :: _ => Some x | [] => None end) = flat_map vitems l.
+  Proof. destruct l as [|x [|y r]]; simpl; intros H; try reflexivity; [rewrite app_nil_r; reflexivity | lia]. Qed.
+
+  Lemma Forall2_length_le (l l' : list node) : Forall2 (ins okU) l l' -> length l = length l'.
+  Proof. induction 1; simpl; congruence. Qed.
+
+  Lemma Q_If a ks : Forall (fun sk => Forall Q (snd sk)) ks -> Q (Node "If" a ks).
+  Proof.
+    intros IH n' Hins Hw Hc Hh. inversion Hins as [c a0 ks0 ks' Hk]; subst. clear Hins.
+    pose proof (wf_slots "If" a ks' _ _ eq_refl Hw) as M. simpl in M.
+    destruct ks' as [|[s1 lc'] [|[s2 lt'] [|[s3 lf'] [|? ?]]]]; simpl in M; try discriminate.
+    inversion M; subst s1 s2 s3. clear M.
+    pose proof (ins_kids_fst _ _ _ _ Hk) as Mf.
+    destruct ks as [|[s1 lc] [|[s2 lt] [|[s3 lf] [|? ?]]]]; simpl in Mf; try discriminate.
+    inversion Mf; subst s1 s2 s3. clear Mf.
+    destruct (ins_kids_cons_inv _ _ _ _ _ Hk) as [l2 [r2 [Eq [Hk2 Hl1]]]]. inversion Eq; subst l2 r2. clear Eq.
+    destruct (ins_kids_cons_inv _ _ _ _ _ Hk2) as [l3 [r3 [Eq [Hk3 Hl2]]]]. inversion Eq; subst l3 r3. clear Eq.
+    destruct (ins_kids_cons_inv _ _ _ _ _ Hk3) as [l4 [r4 [Eq [_ Hl3]]]]. inversion Eq; subst l4 r4. clear Eq.
+    slot_same Hl1 "If" "cond".
+    pose proof (slot_rel "If" "iftrue" lt lt' Hl2 eq_refl) as Ft.
+    pose proof (slot_rel "If" "iffalse" lf lf' Hl3 eq_refl) as Ff.
+    pose proof (wf_single "If" a _ _ _ "iftrue" lt' eq_refl Hw (or_intror (or_introl eq_refl)) eq_refl) as Lt'.
+    pose proof (wf_single "If" a _ _ _ "iffalse" lf' eq_refl Hw (or_intror (or_intror (or_introl eq_refl))) eq_refl) as Lf'.
+    assert (Lt : length lt <= 1) by (rewrite (Forall2_length_le _ _ Ft); exact Lt').
+    assert (Lf : length lf <= 1) by (rewrite (Forall2_length_le _ _ Ff); exact Lf').
+    set (n := Node "If" a [("cond", lc); ("iftrue", lt); ("iffalse", lf)]) in *.
+    set (n' := Node "If" a [("cond", lc); ("iftrue", lt'); ("iffalse", lf')]) in *.
+    assert (E : cov n = map (with_clear (RmAttr [] "iftrue") [("iftrue", 0)]) (oL lt) ++
+                        map (with_clear (RmAttr [] "iffalse") [("iffalse", 0)]) (oL lf)).
+    { unfold n. rewrite cov_If, !if_part_explicit; auto. }
+    assert (E' : cov n' = map (with_clear (RmAttr [] "iftrue") [("iftrue", 0)]) (oL lt') ++
+                          map (with_clear (RmAttr [] "iffalse") [("iffalse", 0)]) (oL lf')).
+    { unfold n'. rewrite cov_If, !if_part_explicit; auto. }
+    rewrite E in Hc. apply app_eq_nil in Hc. destruct Hc as [Hct Hcf]. apply map_eq_nil' in Hct. apply map_eq_nil' in Hcf.
+    assert (HQt : Forall Q lt) by (apply (Forall_kidl Q "If" a [("cond", lc); ("iftrue", lt); ("iffalse", lf)] "iftrue" IH)).
+    assert (HQf : Forall Q lf) by (apply (Forall_kidl Q "If" a [("cond", lc); ("iftrue", lt); ("iffalse", lf)] "iffalse" IH)).
+    assert (HHt : Forall host_ok lt) by (apply Forall_forall; intros x Hx; apply (host_ok_kidl n "iftrue" x Hh); exact Hx).
+    assert (HHf : Forall host_ok lf) by (apply Forall_forall; intros x Hx; apply (host_ok_kidl n "iffalse" x Hh); exact Hx).
+    assert (HWt : Forall (fun x => wf_pyc x = true) lt') by (apply Forall_forall; intros x Hx; apply (wf_kidl n' "iftrue" x Hw); exact Hx).
+    assert (HWf : Forall (fun x => wf_pyc x = true) lf') by (apply Forall_forall; intros x Hx; apply (wf_kidl n' "iffalse" x Hw); exact Hx).
+    destruct (branch_facts lt lt' HQt HHt HWt Ft Lt' Hct) as [Et [It [Ct Vt]]].
+    destruct (branch_facts lf lf' HQf HHf HWf Ff Lf' Hcf) as [Ef [If_ [Cf Vf]]].
+    unfold R. rewrite E', has_err_app, has_inh_app, !has_err_with_clear, !has_inh_with_clear, Et, Ef.
+    split; [reflexivity|]. split; [reflexivity|]. split.
+    - unfold clean. rewrite E', acts_app. fold (wc_part "iftrue" (oL lt')). fold (wc_part "iffalse" (oL lf')).
+      unfold n' at 1. rewrite apply_clears_eq. cbn [map fst snd]. unfold n. f_equal. f_equal; [|f_equal; [|f_equal]].
+      + f_equal. apply wc2_other; try discriminate; assumption.
+      + f_equal. rewrite <- Ct. destruct lt' as [|x' [|y r]]; [apply wc2_nil; assumption | apply wc2_slot1; try discriminate; assumption | simpl in Lt'; lia].
+      + f_equal. rewrite <- Cf. destruct lf' as [|x' [|y r]]; [apply wc2_nil; assumption | apply wc2_slot2; try discriminate; assumption | simpl in Lf'; lia].
+    - unfold n, n'. rewrite !vitems_If.
+      change (kid1 (Node "If" a [("cond", lc); ("iftrue", lt); ("iffalse", lf)]) "iftrue") with (match lt with x :: _ => Some x | [] => None end).
+      change (kid1 (Node "If" a [("cond", lc); ("iftrue", lt); ("iffalse", lf)]) "iffalse") with (match lf with x :: _ => Some x | [] => None end).
+      change (kid1 (Node "If" a [("cond", lc); ("iftrue", lt'); ("iffalse", lf')]) "iftrue") with (match lt' with x :: _ => Some x | [] => None end).
+      change (kid1 (Node "If" a [("cond", lc); ("iftrue", lt'); ("iffalse", lf')]) "iffalse") with (match lf' with x :: _ => Some x | [] => None end).
+      rewrite !ovitems_explicit by assumption. apply vadd_app; assumption.
+  Qed.
+
+  (* ---------- every node ---------- *)
+  Lemma Q_step c a ks : Forall (fun sk => Forall Q (snd sk)) ks -> Q (Node c a ks).
+  Proof.
+    intros IH.
+    destruct (String.eqb_spec c "Compound") as [->|N1]; [apply Q_Compound; exact IH|].
+    destruct (String.eqb_spec c "While") as [->|N2]; [apply Q_While; exact IH|].
+    destruct (String.eqb_spec c "DoWhile") as [->|N3]; [apply Q_DoWhile; exact IH|].
+    destruct (String.eqb_spec c "For") as [->|N4]; [apply Q_For; exact IH|].
+    destruct (String.eqb_spec c "FuncDef") as [->|N5]; [apply Q_FuncDef; exact IH|].
+    destruct (String.eqb_spec c "If") as [->|N6]; [apply Q_If; exact IH|].
+    intros n' Hins Hw Hc Hh. inversion Hins as [c0 a0 ks0 ks' Hk]; subst.
+    assert (Hn : forall s, struct_slot c s = false).
+    { intros s. unfold struct_slot. apply String.eqb_neq in N1, N2, N3, N4, N5, N6. rewrite N1, N2, N3, N4, N5, N6. reflexivity. }
+    rewrite (ins_kids_no_struct c ks ks' Hn Hk). apply R_same. exact Hc.
+  Qed.
+
+  Theorem Q_all n : Q n.
+  Proof. induction n as [c a ks IH] using node_ind'. apply Q_step. exact IH. Qed.
 End Proof.
+
+(* ------------------------------------------------------------------------- *)
+(* the C07 statement                                                           *)
+(* ------------------------------------------------------------------------- *)
+Theorem insert_removed f f' :
+  wf_pyc f' = true -> full f = true -> ins (unsupported_for f) f f' -> ast_mod f' = Ok f.
+Proof.
+  intros W Fu Hins.
+  assert (Hc : cov f = []).
+  { unfold full, coverage in Fu. destruct (cov f) as [|e l]; [reflexivity|]. simpl in Fu.
+    destruct e as [p [|a]|p]; try discriminate. destruct (cov_entries l); discriminate. }
+  assert (Hok : forall u, unsupported_for f u ->
+                has_inh (cov u) = true /\ has_err (cov u) = false /\ vraises (vitems u) = false /\
+                (forall y, In y (vnames_of (vitems u)) -> ~ guards f y)) by (intros u H; exact H).
+  assert (Hh : host_ok (guards f) f) by (intros m x Hm L; exists m; auto).
+  destruct (Q_all (guards f) (unsupported_for f) Hok f f' Hins W Hc Hh) as [He [Hi [Hcl _]]].
+  unfold ast_mod, coverage. destruct (cov_entries_clean (cov f') Hi He) as [r [Er Mr]]. rewrite Er, Mr. f_equal. exact Hcl.
+Qed.
+
+(* insertion under a label is NOT undone: Coverage does not look below a Label (D3) *)
+Definition lbl_block (l : list node) : node :=
+  Node "Label" [("name", "L")] [("stmt", [Node "Compound" [] [("block_items", l)]])].
+Definition a_call : node :=
+  Node "FuncCall" [] [("name", [Node "ID" [("name", "g")] []]); ("args", [])].
+
+Lemma insert_under_label_not_removed :
+  full (lbl_block []) = true /\ wf_pyc (lbl_block [a_call]) = true /\ full (lbl_block [a_call]) = true /\
+  ast_mod (lbl_block [a_call]) = Ok (lbl_block [a_call]).
+Proof. vm_compute. repeat split. Qed.
+
+(* non-vacuity: a host with a loop and a branch, two insertions (one in the loop body) *)
+Definition h_id (x : string) : node := Node "ID" [("name", x)] [].
+Definition h_asg (x y z : string) : node :=
+  Node "Assignment" [("op", "=")] [("lvalue", [h_id x]); ("rvalue", [Node "BinaryOp" [("op", "+")] [("left", [h_id y]); ("right", [h_id z])]])].
+Definition h_block (l : list node) : node := Node "Compound" [] [("block_items", l)].
+Definition h_while (body : node) : node :=
+  Node "While" [] [("cond", [Node "BinaryOp" [("op", "<")] [("left", [h_id "x"]); ("right", [h_id "y"])]]); ("stmt", [body])].
+Definition h_call (f x : string) : node :=
+  Node "FuncCall" [] [("name", [h_id f]); ("args", [Node "ExprList" [] [("exprs", [h_id x])]])].
+Definition h_host : node := h_block [h_asg "x" "y" "z"; h_while (h_block [h_asg "y" "y" "x"])].
+Definition h_host' : node := h_block [h_call "g" "u"; h_asg "x" "y" "z"; h_while (h_block [h_asg "y" "y" "x"; h_call "h" "v"])].
+
+Example insert_nonvacuous :
+  full h_host = true /\ wf_pyc h_host' = true /\ ast_mod h_host' = Ok h_host /\
+  has_inh (cov (h_call "g" "u")) = true /\ has_err (cov (h_call "g" "u")) = false /\ vraises (vitems (h_call "g" "u")) = false.
+Proof. vm_compute. repeat split. Qed.
